@@ -154,3 +154,26 @@ func renameAliases(dir, name string, fn *ssa.Function) map[string]string {
 	}
 	return al
 }
+
+// snapshotHasLocal: on the unchanged tree the function had a source local (or parameter) of this name.
+// Without a snapshot for the function the answer is true (no protection).
+func snapshotHasLocal(dir, fn, name string) bool {
+	loadNamesSnapshot()
+	namesMu.Lock()
+	defer namesMu.Unlock()
+	snap, ok := namesSnap[dir][fn]
+	if !ok {
+		return true
+	}
+	for _, p := range snap.Params {
+		if p == name {
+			return true
+		}
+	}
+	for _, l := range snap.Locals {
+		if l[0] == name {
+			return true
+		}
+	}
+	return false
+}
